@@ -100,7 +100,11 @@ class TimeoutCall(Contract):
         timers = g.get("$timers", [])
         cbs = g.get("$done_callbacks", [])
         tasks = g.get("$tasks", [])
+        if not timers and not tasks and not cbs and not hasattr(self, "fut"):
+            return                  # a suspension before anything was started: nothing can be orphaned there
         ok_shape = len(timers) == 1 and len(tasks) == 1 and len(cbs) == 2 and aw.kind == "future"
+        # once the function task exists, a suspension with the wiring incomplete is a window in which cancelling the caller
+        # leaves the function running unguarded (no timer, nothing that cancels it)
         st.check("P4:wiring-shape(one task, one timer, two done-callbacks, awaits a future)", z3.BoolVal(ok_shape))
         if not ok_shape:
             raise PathEnd("unexpected wiring")
@@ -220,7 +224,9 @@ class TimeoutCall(Contract):
         st = it.st
         g = st.ghost
         if not hasattr(self, "fut"):
-            st.check("P5:no-failure-before-the-wiring-is-complete", z3.BoolVal(False))
+            nothing_started = not g.get("$tasks") and not g.get("$timers")
+            st.check("P5:no-failure-before-the-wiring-is-complete",
+                     z3.And(z3.BoolVal(bool(nothing_started)), is_exc(it, exc, "CancelledError")))
             return
         tv = fval(it, self.task)
         if self.caller_cancelled(it):
